@@ -5,6 +5,7 @@
   assignment and every layout (the layout enters only through `Env.inRange`).
 -/
 import ASV.Proofs.Rules
+import ASV.Proofs.RulesWindow
 import ASV.Proofs.Loc
 namespace ASV.C01
 open ASV ASV.Rules
@@ -64,6 +65,32 @@ theorem detect_on_locations (genes withHits : List Gene) (hits : Gene → List (
   rw [← env_eq_spec_env genes withHits hits loc cutoff circ hloc]
   exact ⟨anchors_iff _ wf g c h, detect_reasons_eq _ g c h⟩
 
+/-- how a run asks the question: `apply_cluster_rules` hands `rule.detect` not the whole record but the genes (and
+    their hits) found in the gene's window (`nearby_features` / `nearby_results`).  For a condition of the documented
+    grammar the outcome — truth value, reasons, ancillary hits, anchoring — is the one over the whole record, for ANY
+    window that keeps every gene in range of the gene under evaluation (what the window keeps beyond that, and
+    whether it keeps the gene itself, is immaterial).  That the real window keeps those genes is C04's extension and
+    C08's lookup theorems; the harness runs the real `apply_cluster_rules` on a third of its cases. -/
+theorem detect_in_window_eq_detect_on_record (e : Env) (keep : Gene → Bool) (g : Gene)
+    (hk : ∀ h, e.inRange g h = true → keep h = true) (c : Cond) (h : c.WF = true) :
+    detect (e.restrict keep) g c = detect e g c ∧ anchors (e.restrict keep) g c = anchors e g c := by
+  have hd : detect (e.restrict keep) g c = detect e g c := evalC_restrict e keep g hk false c h
+  exact ⟨hd, by simp only [anchors, hd]⟩
+
+/-- the hypothesis on the grammar cannot be dropped: a `minscore` inside `cds(...)` is evaluated at the neighbour
+    with the neighbour's own neighbourhood, so a window around the gene can change the outcome -/
+example : ∃ (e : Env) (keep : Gene → Bool) (g : Gene) (c : Cond),
+    (∀ h, e.inRange g h = true → keep h = true) ∧ detect (e.restrict keep) g c ≠ detect e g c :=
+  ⟨⟨[0, 1, 2], [0, 1, 2], fun g => if g = 2 then [("p", 20)] else if g = 0 then [("q", 20)] else [],
+      fun a b => if a = b then 0 else if (a = 0 ∧ b = 2) ∨ (a = 2 ∧ b = 0) then 16 else 8, 10⟩,
+    fun h => h != 2, 0, .group false [.conj [.single false "q", .cds false [.score false "p" 5]]],
+    by
+      intro h hr
+      by_cases h2 : h = 2
+      · subst h2; revert hr; decide
+      · simp [h2],
+    by decide⟩
+
 /-! ### non-vacuity: concrete layouts meeting the hypotheses on which the interesting branches fire -/
 
 /-- three genes on a line, cutoff 10: gene 1 is 9 bases from gene 0, gene 2 exactly 10 away -/
@@ -95,5 +122,19 @@ example : detect (exEnv 10) 0 (.group false [.minimum false 3 ["a", "b", "c"]]) 
 /-- minscore(c, 5) fails on bitscore 4 (carried doubled as 8), passes at 4 -/
 example : (detect (exEnv 10) 1 (.group false [.score false "c" 5])).met = false := by decide
 example : (detect (exEnv 10) 1 (.group false [.score false "c" 4])).met = true := by decide
+
+/-- the window theorem on the layout above: gene 2 is exactly the cutoff away from gene 1 and further from gene 0,
+    so a window around gene 0 may drop it -/
+example : (∀ h, (exEnv 10).inRange 0 h = true → (fun h => h != 2) h = true) ∧
+    detect ((exEnv 10).restrict fun h => h != 2) 0 (.group false [.minimum false 3 ["a", "b", "c"]])
+      = ⟨true, ["a"], [(1, "b"), (1, "c")]⟩ := by
+  have hk : ∀ h, (exEnv 10).inRange 0 h = true → (fun h => h != 2) h = true := by
+    intro h hr
+    by_cases h2 : h = 2
+    · subst h2; revert hr; decide
+    · simp [h2]
+  refine ⟨hk, ?_⟩
+  rw [(detect_in_window_eq_detect_on_record (exEnv 10) (fun h => h != 2) 0 hk _ (by decide)).1]
+  decide
 
 end ASV.C01
